@@ -41,7 +41,8 @@ LOOPS_MORE = [(0, 7, 1), (0, 8, 1), (1, 1, 1), (3, 2, 1), (0, 7, 3), (1, 8, 2)]
 # variants. alloc: the plain shape. mi/mc/mi2/mc2: the buffer between stage 0 and 1 is a tile of M (see build). lv: it is a local allocation that the consumer
 # reads through a view taken outside the loop. late: the output subview is computed right before the last stage instead of with the other index computations.
 # trail: a conditional copy follows the last barrier of the body.
-MIDS = ["alloc", "mi", "mc", "mi2", "mc2", "lv", "late", "trail"]
+# skip: the compute stage 2 additionally reads the buffer stage 0 wrote (producer and consumer two stages apart; needs S >= 3 and a compute stage 2)
+MIDS = ["alloc", "mi", "mc", "mi2", "mc2", "lv", "late", "trail", "skip"]
 SV0 = "memref<1xi32, strided<[1]>>"
 
 
@@ -56,6 +57,8 @@ def space(tier):
                             for dyn in (0, 1, 2, 4):
                                 for mid in MIDS:
                                     if mid != "alloc" and tier == "quick" and (extra or dyn or loop[1] not in (0, 2, 3, 5)):
+                                        continue
+                                    if mid == "skip" and (S < 3 or first != "C"):
                                         continue
                                     if dyn in (2, 4) and tier == "quick" and (extra or loop not in ((0, 5, 1), (2, 6, 1), (0, 6, 2), (0, 0, 1))):
                                         continue
@@ -142,6 +145,10 @@ def build(case):
             ins.append(("%W", MT1))
         if two_loads and k == 1:
             ins.append(("%Lb", MT1))
+        if mid == "skip" and k == 1:
+            ins = [("%W", MT1)]
+        if mid == "skip" and k == 2:
+            ins.append(("%L0", MT1))
         if mid == "late" and outkind == "tile" and k == S - 1:
             lines.append(f"    %tout = memref.subview %O[%i] [1] [1] : {MTT} to {SV}")
         for l in gen_op(kinds[k], k + 1, ins, outs):
